@@ -15,7 +15,7 @@ def run(ctx):
         res = [L.visit_agreement_rule(c, "C12"), L.totality_rule(c, "C12")]
         if fs == "default":
             res.insert(0, L.class_table_rule(ctx.syn, c, "C12"))
-            res.append(L.map_key_rule(ctx.syn, "C12"))
+            res.append(L.map_key_rule(ctx.syn, "C12", crate=c))
         for r in res:
             if fs != "default":
                 r.rule += "@" + fs
